@@ -55,6 +55,13 @@ macro_rules! for_prefix {
 
 pub mod c26;
 pub mod c27;
+#[cfg(feature = "sp")]
+pub mod pg;
+#[cfg(feature = "sp")]
+pub mod c28;
+#[cfg(feature = "sp")]
+pub mod c30;
+pub mod c31;
 pub mod c33;
 
 #[cfg(all(kani, test))]
